@@ -23,6 +23,9 @@ class Spec:
         for cid, (origin, opts) in self.sel.items():
             self.sel_by_origin.setdefault(origin, []).append(cid)
         self.incompat = [tuple(p) for p in d.get('incompat', [])]
+        for x in list(d.get('dv', [])) + list(d.get('metrics', [])):
+            self.nodes.append(x['name'])
+            self.derive.setdefault(x['host'], []).append(x['name'])
 
     def reachable_universe(self):
         """Everything reachable from the start nodes when every option of every choice counts as derived."""
